@@ -4,20 +4,62 @@ _A = ["--watchdog", "60"]
 PROP = dict(
     harnesses={"c04_signal": dict(sources=["harness/c04_signal.cpp"])},
     legs=[
-        dict(name="random", harness="c04_signal", flavour="asan", mode="random", quick=2000, thorough=100000, args=_A, case_timeout=120, concurrent=True),
+        dict(name="histories", harness="c04_signal", flavour="asan", mode="random", quick=6000, thorough=1000000, args=_A, case_timeout=120, concurrent=True),
         dict(name="enum-depth5", harness="c04_signal", flavour="asan", mode="enum", quick=67228, thorough=0, args=_A + ["--depth", "5"], case_timeout=120,
              scalable=False, exhaustive=True, concurrent=True),
-        dict(name="badsig", harness="c04_signal", flavour="asan", mode="badsig", quick=600, thorough=20000, args=_A, case_timeout=120,
+        dict(name="enum-depth6", harness="c04_signal", flavour="asan", mode="enum", quick=0, thorough=470596, args=_A + ["--depth", "6"], case_timeout=120,
+             scalable=False, exhaustive=True, concurrent=True),
+        dict(name="badsig", harness="c04_signal", flavour="asan", mode="badsig", quick=1500, thorough=150000, args=_A, case_timeout=120,
              seed_offset=104729, concurrent=True),
         dict(name="disposition-matrix", harness="c04_signal", flavour="asan", mode="matrix", quick=320, thorough=320, args=["--watchdog", "0"],
              case_timeout=120, scalable=False, exhaustive=True),
-        dict(name="tsan", harness="c04_signal", flavour="tsan", mode="random", quick=300, thorough=10000, args=_A + ["--only-raise", "1"], case_timeout=120,
+        dict(name="tsan-histories", harness="c04_signal", flavour="tsan", mode="random", quick=600, thorough=40000, args=_A + ["--only-raise", "1"], case_timeout=120,
              seed_offset=7919, concurrent=True),
     ],
-    rule="TODO",
-    assumptions=[],
-    technique="TODO",
-    level_text="TODO",
-    level_note="TODO",
-    required_counters={"all": []},
+    rule=("histories: 1-3 real loops (epoll/select), each on its own thread; 1-4 of the signals SIGUSR1 SIGUSR2 SIGHUP SIGRTMIN+3..5, each given a seeded "
+          "disposition before the first subscription (SIG_DFL, SIG_IGN, SIG_DFL stored with SA_SIGINFO, two sa_handler sentinels, two SA_SIGINFO sentinels; flags from "
+          "{0, RESTART, NODEFER, RESTART|ONSTACK, NODEFER|RESTART}; a random sa_mask); in one case of three some events are created/enabled (and signals raised) "
+          "before the loop threads exist; then 20-60 steps: create (initialize(int) / std::set / initializer_list; persistent, one-shot, persistent that "
+          "disables itself in its callback, one-shot that re-enables itself in its callback), enable, disable, destroy (also while enabled, also enable/disable "
+          "twice), 2-3 such operations inside one loop task, re-installing the disposition of a signal nobody is subscribed to, and deliveries: raise() or "
+          "pthread_sigqueue() to the calling thread from the orchestrator or raise() inside a task on a loop thread, one at a time, bursts of 2-25 back-to-back "
+          "deliveries only while no one-shot/self-modifying event is enabled; every operation is run on the owning loop and acknowledged, every delivery is "
+          "followed by two acknowledged barrier tasks per loop before the counts are compared with the model; the disposition of every signal without a model "
+          "subscriber is compared with the snapshot taken before the first subscription after EVERY step; teardown destroys the remaining events on their loops "
+          "or (one case in three) after the loop threads were stopped. badsig: the same histories where 2 events in 5 also carry SIGKILL/SIGSTOP/100 in their "
+          "set (enable() must fail; what is judged is only the state after such an event is destroyed). enum: every sequence of depth 5 (thorough 6) over "
+          "{enable,disable} x {persistent@L0, one-shot@L0, persistent@L1} + {raise} on SIGUSR1, x 2 back-end assignments x {sa_handler, SA_SIGINFO} sentinel. "
+          "matrix: every (old disposition kind incl. SIG_IGN stored with SA_SIGINFO) x flag set x back-end x {persistent, one-shot} x {raise, pthread_sigqueue}, "
+          "run once in a forked child and once in-process. A history is non-trivial when it has >= 2 loops, one delivery reached >= 2 enabled events on >= 2 "
+          "loops, and some signal went through a complete subscribe -> last-unsubscribe cycle (restoration checked) before teardown; distinct = distinct hashes "
+          "of the generated script"),
+    assumptions=["deliveries are synchronous and self-directed (raise()/pthread_sigqueue() to the calling thread), so the process-level handler has returned when the "
+                 "raising call returns; two acknowledged barrier tasks per loop then bound the loop pass that reads the signal pipe (no wall-clock wait)",
+                 "no subscription change is requested by the harness while a delivery is in progress; back-to-back bursts are generated only when no enabled event "
+                 "changes its own subscription on delivery",
+                 "a one-shot event may fire again after it has been enabled again ('at most once' is judged per enable)",
+                 "events are never destroyed or disabled from inside another event's callback (a FIXME in the code, outside the quantifier); re-initialising an event "
+                 "is not generated",
+                 "after enable() returned false nothing is assumed about the event until it is destroyed; afterwards it must be gone (disposition restored, no callback, "
+                 "no use of the freed object)",
+                 "the TSan leg uses raise() only: gcc TSan runs the handler of a self-directed raise() synchronously but defers pthread_sigqueue()"],
+    technique=("lock-step reference model of per-signal subscriptions against real loops, real signals and real sigaction() readback; sentinel handlers installed "
+               "before the first subscription; random histories, an exhaustively enumerated small alphabet and an exhaustive old-disposition matrix, under ASan+UBSan, "
+               "plus ThreadSanitizer on the same histories"),
+    level_text=("Thousands of generated subscribe/unsubscribe/delivery histories over up to three loop threads, with every callback counted per event, thread and "
+                "signal number, every chained call of the pre-existing handler counted, and the process disposition read back with sigaction() after every step; "
+                "all depth-5 (thorough: depth-6) sequences of a 7-operation alphabet and all 320 old-disposition combinations are enumerated. Held on the histories and "
+                "schedules observed, not a proof."),
+    level_note=("trusts the small subscription model, the synchronous-raise argument (POSIX: a self-directed signal is delivered before raise() returns) and gcc "
+                "ASan/UBSan/TSan; thread schedules are sampled, so the handler-versus-unsubscribe overlap is found statistically (TSan reports it directly)"),
+    required_counters={"all": ["deliveries", "callbacks_matched", "chained_previous_sa_handler", "chained_previous_sa_sigaction", "siginfo_value_passthrough_checked",
+                               "first_subscribe_install", "last_unsubscribe_restore_checked", "restore_checked_old_DFL", "restore_checked_old_IGN",
+                               "restore_checked_old_handler", "restore_checked_old_siginfo", "restore_checked_old_DFL_with_SA_SIGINFO",
+                               "restore_checked_old_IGN_with_SA_SIGINFO", "disposition_changed_between_cycles",
+                               "subscribe_second_loop_joins", "unsubscribe_loop_leaves_others_remain", "deliveries_to_2_loops", "deliveries_to_3_loops",
+                               "deliveries_raised_on_a_loop_thread", "deliveries_before_loop_started", "subscriptions_before_loop_started",
+                               "oneshot_fired", "oneshot_multi_signal_fired", "restore_triggered_from_inside_dispatch", "window_reaction_may_overlap_handler",
+                               "bursts_over_one_pipe_read", "loop_first_subscription_pipe_created", "loop_last_subscription_pipe_closed",
+                               "teardown_destroy_after_loop_stopped", "loops_epoll", "loops_select", "enum_sequences",
+                               "enable_failed_on_unsubscribable_signal", "destroyed_event_whose_enable_failed", "matrix_scenarios_in_forked_child"]},
 )
